@@ -9,6 +9,7 @@ import (
 	"reflect"
 	"sort"
 	"strings"
+	"time"
 
 	"verif/internal/chk"
 	"verif/internal/gen"
@@ -432,6 +433,25 @@ func c11(args []string) {
 						os.Remove(filepath.Join(r1.Wd, p+".audit.json"))
 					}
 				}
+			}
+			if i%2 == 1 {
+				// the kept outputs were copied / restored / touched in the meantime: their modification times are now later than
+				// those of their audit files (a file's record does not expire)
+				del := map[string]bool{}
+				for _, ti := range j.del {
+					for _, p := range exp.Tasks[ti].Outs {
+						del[p] = true
+					}
+				}
+				future := time.Now().Add(3 * time.Second)
+				for _, t := range exp.Tasks {
+					for port, p := range t.Outs {
+						if !del[p] && !t.DirOut[port] {
+							os.Chtimes(filepath.Join(r1.Wd, p), future, future)
+						}
+					}
+				}
+				desc["kept_outputs_touched"] = true
 			}
 			fromDisk = len(exp.Tasks) - len(j.del)
 			r2 := execSpec(c, root, s, j.cfg, nil, true, 1)
